@@ -2,6 +2,7 @@ import SimilarVerif.Lemmas.Walk
 import SimilarVerif.Lemmas.Replace
 import SimilarVerif.Model.Common
 import SimilarVerif.Lemmas.Capture
+import SimilarVerif.Lemmas.MyersTotal
 /-!
 # C02 — captured ops form a valid edit script old → new; ratio in [0,1], 1 iff equal
 
@@ -97,5 +98,30 @@ theorem capture_myers_valid : type_of% @CaptureP.capture_myers_valid := @Capture
 
 /-- end to end, Patience (relative to `SnakeInBox` for the sequences and the unique lists) -/
 theorem capture_patience_valid : type_of% @CaptureP.capture_patience_valid := @CaptureP.capture_patience_valid
+
+end SimilarVerif.C02
+
+namespace SimilarVerif.C02
+open SimilarVerif Spec
+
+/-- end to end, Myers — unconditional: whatever `capture_diff_deadline(Myers, …)` returns is a valid,
+alternating op list for the two ranges with the item counts of the raw stream, for every clock -/
+theorem capture_myers_valid_uncond (E : Env) (repair : Bool) (os oe ns ne : Nat) (w : World)
+    (ho : os ≤ oe) (hn : ns ≤ ne) (hb : InBounds E os oe ns ne) (ops : List Op) (w' : World)
+    (hc : captureDiff .myers E repair os oe ns ne w = .ok (ops, w')) :
+    Walk (eqB E) os ns ops oe ne ∧ Alternating ops := by
+  obtain ⟨_, _, _, _, _, _, hw, _, _, _, ha, _⟩ :=
+    CaptureP.capture_myers_valid E (MyersT.snake_in_box E) repair os oe ns ne w ho hn hb ops w' hc
+  exact ⟨hw, ha⟩
+
+/-- end to end, Patience — unconditional -/
+theorem capture_patience_valid_uncond (E : Env) (repair : Bool) (os oe ns ne : Nat) (w : World)
+    (ho : os ≤ oe) (hn : ns ≤ ne) (hb : InBounds E os oe ns ne) (ops : List Op) (w' : World)
+    (hc : captureDiff .patience E repair os oe ns ne w = .ok (ops, w')) :
+    Walk (eqB E) os ns ops oe ne ∧ Alternating ops := by
+  obtain ⟨_, _, _, _, _, hw, _, _, _, ha, _⟩ :=
+    CaptureP.capture_patience_valid E (MyersT.snake_in_box E) repair os oe ns ne
+      (fun _ _ _ _ => MyersT.snake_in_box _) w ho hn hb ops w' hc
+  exact ⟨hw, ha⟩
 
 end SimilarVerif.C02
